@@ -72,7 +72,7 @@ class Ref:
         self.rootkind = env.kind_of(cfg.clsname)
         self.attr = env.family_of(cfg.clsname) in env.ATTR_FAMILIES
         self.bufferable = env.is_buffered_class(cfg.clsname)
-        self.disk = [copy.deepcopy(i) for i in cfg.initial]
+        self.disk = [ABSENT if isinstance(i, env.Debris) else copy.deepcopy(i) for i in cfg.initial]
         n = len(self.disk)
         self.buf = [None] * n  # buffered logical content, or None
         self.in_buf = [False] * n
@@ -244,7 +244,7 @@ class Ref:
             self.add_object(ev[1])
             return None, info
         if t == "ext":
-            _, r, path, value = ev
+            _, r, path, value = ev[:4]  # an optional 5th field ("older") only affects the timestamp the writer leaves
             c = copy.deepcopy(self.disk[r]) if self.disk[r] is not ABSENT else None
             if not path:
                 c = copy.deepcopy(value)
@@ -436,17 +436,18 @@ class World:
             self.add_object(ev[1])
             return None
         if t == "ext":
-            _, r, path, value = ev
+            _, r, path, value = ev[:4]
+            kw = {"older": True} if len(ev) > 4 and ev[4] == "older" else {}
             res = self.resources[r]
             if not path:
-                res.ext_write(value)
+                res.ext_write(value, **kw)
             else:
                 c = res.read()
                 if value == "#DEL":
                     del get_at(c, path[:-1])[path[-1]]
                 else:
                     get_at(c, path[:-1])[path[-1]] = copy.deepcopy(value)
-                res.ext_write(c)
+                res.ext_write(c, **kw)
             return None
         if t == "construct":
             try:
